@@ -231,6 +231,13 @@ func judgePairCur(a, b string, noColor bool) (kind, detail string) {
 		}
 		return "", ""
 	}
+	return judgeReportText(rep, a, b, len(aL), len(bL))
+}
+
+// judgeReportText decides the report clauses of C13 for a NO_COLOR report of (stored a,
+// received b): no escape sequences, header counts, `-` lines from a, `+` lines from b,
+// equal remainders, a range header for long texts.
+func judgeReportText(rep, a, b string, nA, nB int) (kind, detail string) {
 	if strings.Contains(rep, "\x1b") && !strings.Contains(a+b, "\x1b") {
 		return "escape-sequence-in-nocolor", "ESC byte in a NO_COLOR report"
 	}
@@ -253,7 +260,7 @@ func judgePairCur(a, b string, noColor bool) (kind, detail string) {
 	if !msEqual(ra, rb) {
 		return "remainders-differ", "stored minus `-` lines != received minus `+` lines"
 	}
-	if (len(aL) > 10 || len(bL) > 10) && p.RangeHeaders == 0 {
+	if (nA > 10 || nB > 10) && p.RangeHeaders == 0 {
 		return "missing-range-header", "texts longer than 10 lines but no @@ header"
 	}
 	return "", ""
@@ -395,7 +402,131 @@ func checkC13(c *vkit.Ctx) {
 		noColor := r.IntN(3) != 0
 		judgeAndCount(c, r, j, a, b, shape, noColor)
 	}
+	c13MatchLevel(c)
 	c13Concurrent(c)
+}
+
+// c13MatchLevel: the report a FAILING Match* call hands to t.Error, judged against the text
+// the snapshot file really holds and the formatted received value (not against the pair the
+// hook was given): store a through the API in one simulated process, call with b in the next
+// one (NO_COLOR), strip the `at <file>:<line>` footer, apply the report clauses.
+func c13MatchLevel(c *vkit.Ctx) {
+	n := c.N(4000, 120000)
+	apis := []string{"ssnap", "snap", "ssnap", "snap", "yaml", "json", "sjson"}
+	for j := 0; j < n; j++ {
+		i := 40000000 + j
+		if !c.Mine(i) {
+			continue
+		}
+		r := c.Rand("match", j)
+		api := apis[r.IntN(len(apis))]
+		var va, vb Val
+		shape := ""
+		switch api {
+		case "ssnap", "snap":
+			var a, b string
+			if r.IntN(4) == 0 && api == "ssnap" {
+				// (lines ending in \r do not round-trip through multi-entry files, which are
+				// read line by line; the multi-entry texts below are drawn without them)
+				a = midText(r)
+				b = editBig(r, a)
+				shape = "11-40-lines"
+			} else {
+				a, _ = vkit.Text(r, vkit.TextOpts{NoHuge: true, CREOL: api == "ssnap"})
+				if r.IntN(3) == 0 {
+					b, _ = vkit.Text(r, vkit.TextOpts{NoHuge: true, CREOL: api == "ssnap"})
+					shape = "independent"
+				} else {
+					b, shape = vkit.Pair(r, a, api == "ssnap")
+					shape = "near:" + shape
+				}
+			}
+			va, vb = Val{Kind: "str", S: a}, Val{Kind: "str", S: b}
+			if r.IntN(6) == 0 {
+				cl := vkit.Classes{}
+				va, vb = textCarrier(r, a, cl), textCarrier(r, b, cl)
+				shape += "+carrier"
+			}
+		case "yaml":
+			va = genValue(r, "yaml", nil, HistOpts{NoHuge: true, NoHeader: true}, vkit.Classes{})
+			vb = genValue(r, "yaml", nil, HistOpts{NoHuge: true, NoHeader: true}, vkit.Classes{})
+			shape = "independent-yaml"
+		default:
+			va = genValue(r, api, nil, HistOpts{NoHuge: true}, vkit.Classes{})
+			vb = genValue(r, api, nil, HistOpts{NoHuge: true}, vkit.Classes{})
+			shape = "independent-json"
+		}
+		opA := Op{API: api, Test: "TestReport", File: "rep", Val: va}
+		opB := opA
+		opB.Val = vb
+		ta, _ := Formatted(opA)
+		tb, _ := Formatted(opB)
+		in := map[string]any{"api": api, "stored": vkit.Clip(ta, 3000), "received": vkit.Clip(tb, 3000), "shape": shape}
+		c.Guard(in, func() {
+			s := NewSess("c13m")
+			defer s.Close()
+			s.NewProcess(vkit.Mode{}, true)
+			t := vkit.NewT("TestReport")
+			res := s.Step(t, opA, vkit.Mode{})
+			s.EndExec(t)
+			if res.Got != vkit.Added || len(res.Problems) > 0 {
+				c.Violate("match-level-store-failed", "", fmt.Sprintf("%s: storing the first text gave %s %v", api, res.Got, res.Problems), in)
+				return
+			}
+			m := vkit.Mode{CI: r.IntN(2) == 0}
+			s.NewProcess(m, true)
+			t = vkit.NewT("TestReport")
+			res = s.Step(t, opB, m)
+			s.EndExec(t)
+			if len(res.Problems) > 0 {
+				// (class terminator-escape-conflation: the texts differ only in `---` vs `/-/-/-/`
+				// lines and the call passes - the C02 finding seen from here: no report at all
+				// for different texts)
+				c.Violate("match-level-"+res.Problems[0].Kind, res.Problems[0].Class, res.Problems[0].Detail, in)
+				return
+			}
+			if ta == tb {
+				c.Count("match_level_identical_pairs_passed", 1)
+				return
+			}
+			// res.Got == Failed was decided by Step against the model; now the message itself
+			if len(res.Signals.Errors) != 1 {
+				return
+			}
+			rep := res.Signals.Errors[0]
+			body := rep
+			if k := strings.LastIndex(strings.TrimSuffix(rep, "\n"), "\n"); k >= 0 && strings.HasPrefix(rep[k+1:], "at ") {
+				body = rep[:k+1]
+				c.Count("match_level_footers_seen", 1)
+			} else {
+				c.Violate("match-level-report-without-footer", "", vkit.Clip(rep, 300), in)
+				return
+			}
+			if kd, dt := judgeReportText(body, ta, tb, len(splitLines(ta)), len(splitLines(tb))); kd != "" {
+				class := ""
+				if (api == "snap" || api == "yaml") && (hasLine(ta, "/-/-/-/") || hasLine(tb, "/-/-/-/")) {
+					ua, ub := vkit.Unescape(ta), vkit.Unescape(tb)
+					if k2, _ := judgeReportText(body, ua, ub, len(splitLines(ua)), len(splitLines(ub))); k2 == "" {
+						// the report is right for the texts with every `/-/-/-/` line read as `---`
+						class = "escape-marker-line-reported-as-terminator"
+					}
+				}
+				c.Violate("match-level-"+kd, class, fmt.Sprintf("%s %s: %s | report %s", api, shape, dt, vkit.Q(vkit.Clip(rep, 400))), in)
+			}
+			c.Count("match_level_reports_judged:"+api, 1)
+		})
+		c.Count("match_level_shape:"+shape, 1)
+		c.Case(vkit.Hash("match", api, ta, tb), ta != tb)
+	}
+}
+
+func hasLine(s, l string) bool {
+	for _, x := range strings.Split(s, "\n") {
+		if x == l {
+			return true
+		}
+	}
+	return false
 }
 
 // c13Concurrent: several failing comparisons at once, all with the SAME received text and
